@@ -18,9 +18,15 @@ structure Out (Γ : Ctx) (c : Bool → Bool → Bool) (s : St) (l r k : Nat) (ou
   neTrue : 2 ≤ out.2 → out.1.nonEmpty = true
   mono : s.nonEmpty = true → out.1.nonEmpty = true
 
+/-- contract of a genuine task computation (`applyStep`, not a bare terminal look-up): in addition to
+    `Out`, any non-zero result pointer (including the terminal 1) forces the `nonEmpty` flag -/
+structure OutR (Γ : Ctx) (c : Bool → Bool → Bool) (s : St) (l r k : Nat) (out : St × Nat) : Prop
+    extends Out Γ c s l r k out where
+  nz : out.2 ≠ 0 → out.1.nonEmpty = true
+
 def Spec (Γ : Ctx) (c : Bool → Bool → Bool) (rec : Nat → Nat → St → St × Nat) (k : Nat) : Prop :=
   ∀ l r s, Inv Γ c s → l < Γ.L.size → r < Γ.R.size → k ≤ varOf Γ.L Γ.n l → k ≤ varOf Γ.R Γ.n r →
-    Out Γ c s l r k (rec l r s)
+    OutR Γ c s l r k (rec l r s)
 
 theorem asBool_some {L : Arr} {n : Nat} (p : Nat) (x : Bool) (h : asBool p = some x) (v) :
     evW L n v p = x := by
@@ -67,7 +73,7 @@ theorem solve_out (Γ : Ctx) (c : Bool → Bool → Bool) (ok : Γ.Ok c) (rec) (
     Out Γ c s a b k (solve Γ.op rec a b s) := by
   unfold solve
   cases hop : Γ.op (asBool a) (asBool b) with
-  | none => exact hrec a b s hs ha hb hka hkb
+  | none => exact (hrec a b s hs ha hb hka hkb).toOut
   | some t =>
     have hG := Γ.G_const c ok a b t hop
     refine ⟨hs, ?_, fun _ => rfl, ?_, fun h => h⟩
